@@ -1091,7 +1091,7 @@ class AutoImpBase(Prop):
         ("lib/python/pyflyby/_modules.py", "ModuleHandle.ancestors"),
         ("lib/python/pyflyby/_interactive.py", "AutoImporter.auto_import"),
     ]
-    quick_cases = 1500
+    quick_cases = 3000
     thorough_cases = 40000
     quick_deadline_s = 55
     thorough_deadline_s = 600
